@@ -117,31 +117,39 @@ def run(ctx):
     # setMessageHeader rows
     f = fb.fn(PKT + "::setMessageHeader")
     en = {e["name"]: e["value"] for e in fb.enum(CH + "::MessageType")["enumerators"]}
-    ps = paths.enumerate_paths(f)
+    from cmpverif import tables
+    sel = [prm["decl"] for prm in f.params if (prm["t"].get("s") or "").replace("const ", "").strip().endswith("MessageType")]
+    if len(sel) != 1:
+        raise Broken("Packet::setMessageHeader: expected one MessageType parameter")
+    setters = {row["setter"] for row in spec["message_header"]}
+    other = max(en.values()) + 1
+
+    def executed(v):
+        try:
+            return tables.trace(f, lambda n: v if n.get("k") == "ref" and n.get("decl") == sel[0] else None,
+                                lambda c: callee_name(c) in setters)
+        except tables.Unsupported as ex:
+            raise Broken("Packet::setMessageHeader is not a table over the message type: %s" % ex)
+    per_type = {nm: executed(v) for nm, v in en.items()}
+    per_type["<other>"] = executed(other)
     for row in spec["message_header"]:
         tag = row["setter"].split("::")[-1]
         if "message_types" not in row:
             cs = list(f.calls(row["setter"]))
             ok = len(cs) == 1 and getters_in(f, cs[0]["args"][0], MH) == {row["source"]} and facts.flows_unchanged(f, cs[0]["args"][0], row["source"])
-            on_all = all(any(callee_name(x) == row["setter"] for x in q.calls()) for q in ps)
-            res.check(ok and on_all, "C04-R1", "setMessageHeader:%s" % tag, cs[0].get("loc") if cs else f.loc, "%s <- %s on every path" % (tag, row["source"].split("::")[-1]),
-                      "%s is not fed from exactly %s on every path" % (tag, row["source"]))
+            on_all = all(any(callee_name(x) == row["setter"] for x in ex) for ex in per_type.values())
+            res.check(ok and on_all, "C04-R1", "setMessageHeader:%s" % tag, cs[0].get("loc") if cs else f.loc, "%s <- %s for every message type" % (tag, row["source"].split("::")[-1]),
+                      "%s is not fed from exactly %s for every message type" % (tag, row["source"]))
         else:
-            for q in ps:
-                sw = [a for a in q.atoms if a[0] == "switch"]
-                if len(sw) != 1:
-                    continue
-                val = sw[0][2]
-                names = [n for n, v in en.items() if v == val] if val != "default" else [n for n, v in en.items() if v not in sw[0][3]]
-                for nm in names:
-                    cs = [x for x in q.calls(row["setter"])]
-                    if nm in row["message_types"]:
-                        ok = len(cs) == 1 and getters_in(f, cs[0]["args"][0], MH) == {row["source"]} and facts.flows_unchanged(f, cs[0]["args"][0], row["source"])
-                        res.check(ok, "C04-R1", "setMessageHeader:%s:%s" % (nm, tag), cs[0].get("loc") if cs else f.loc, "%s message: %s <- %s" % (nm, tag, row["source"].split("::")[-1]),
-                                  "%s message: %s is not fed from %s" % (nm, tag, row["source"]))
-                    else:
-                        res.check(not cs, "C04-R1", "setMessageHeader:%s:no-%s" % (nm, tag), f.loc, "%s message does not set %s" % (nm, tag),
-                                  "%s message sets %s although its header has no such field" % (nm, tag))
+            for nm in en:
+                cs = [x for x in per_type[nm] if callee_name(x) == row["setter"]]
+                if nm in row["message_types"]:
+                    ok = len(cs) == 1 and getters_in(f, cs[0]["args"][0], MH) == {row["source"]} and facts.flows_unchanged(f, cs[0]["args"][0], row["source"])
+                    res.check(ok, "C04-R1", "setMessageHeader:%s:%s" % (nm, tag), cs[0].get("loc") if cs else f.loc, "%s message: %s <- %s" % (nm, tag, row["source"].split("::")[-1]),
+                              "%s message: %s is not fed from %s" % (nm, tag, row["source"]))
+                else:
+                    res.check(not cs, "C04-R1", "setMessageHeader:%s:no-%s" % (nm, tag), f.loc, "%s message does not set %s" % (nm, tag),
+                              "%s message sets %s although its header has no such field" % (nm, tag))
     # ---- R2 stride
     moved = {}
     for x in walk(m.loop_stmt.get("body", {})):
@@ -185,13 +193,13 @@ def run(ctx):
     # ---- R3 invalid marking + dispatch
     cre = fb.fn(PKT + "::create")
     nrows = 0
-    for q in paths.enumerate_paths(cre):
-        r = q.returns()
-        if r is None:
-            continue
+    def is_mk(e):
+        return any(x.get("k") == "call" and (callee_name(x) or "").startswith("std::make_unique") for x in walk(e))
+    for q in paths.return_rows(fb, cre, is_mk):
+        r = q.ret
         v = [x for x in walk(r["e"]) if x.get("k") == "call" and (callee_name(x) or "").startswith("std::make_unique")]
         if len(v) != 1:
-            raise Broken("Packet::create: return without make_unique")
+            raise Broken("Packet::create: return without make_unique (%s)" % r.get("loc"))
         cls = (v[0].get("callee") or {}).get("targs", ["?"])[0]
         vals = [(callee_name(a[3]).rsplit("::", 1)[0], a[2]) for a in q.atoms if a[0] == "truth" and a[3].get("k") == "call" and (callee_name(a[3]) or "").endswith("::isValidPayload")]
         sw = [a for a in q.atoms if a[0] == "switch"]
